@@ -2,6 +2,7 @@ import EtVerif.Props.C01b
 import EtVerif.Props.C01
 import EtVerif.Props.TrC09
 import EtVerif.Props.TrC01
+import EtVerif.Props.TrGo05
 #print axioms EtVerif.C01.l1_contract
 #print axioms EtVerif.C01.F_contract
 #print axioms EtVerif.C01.fixedpoint_exists_unique
@@ -40,3 +41,34 @@ import EtVerif.Props.TrC01
 #print axioms EtVerif.TrC01.compute_refuses_validation
 #print axioms EtVerif.TrC01.compute_schedule
 #print axioms EtVerif.TrC01.compute_default_schedule
+-- the property stated about the translated Go code (composition of refinement and model-level theorems)
+#print axioms EtVerif.TrGo05.go_compute_returns
+#print axioms EtVerif.TrGo05.refusal_of_not_valid
+#print axioms EtVerif.TrGo05.go_compute_returns_iterate
+#print axioms EtVerif.TrGo05.go_compute_stop_spec
+#print axioms EtVerif.TrGo05.go_compute_stop_first
+#print axioms EtVerif.TrGo05.go_compute_withIterations
+#print axioms EtVerif.TrGo05.go_compute_ok_of_loop
+#print axioms EtVerif.TrGo05.go_compute_fuel_independent
+#print axioms EtVerif.TrGo05.go_compute_invalid_rejected
+#print axioms EtVerif.TrGo05.go_compute_invalid_error
+#print axioms EtVerif.TrGo05.go_compute_nonFinite
+#print axioms EtVerif.TrGo05.go_compute_stats
+#print axioms EtVerif.TrGo05.go_compute_stats_fields
+#print axioms EtVerif.TrGo05.go_compute_criteria_stop
+#print axioms EtVerif.TrGo05.go_compute_criteria_first
+#print axioms EtVerif.TrGo05.go_compute_stop_first_exact
+#print axioms EtVerif.TrGo05.go_compute_ranking_top
+#print axioms EtVerif.TrGo05.go_compute_ranking_all
+#print axioms EtVerif.TrGo05.go_compute_terminates_schedule
+#print axioms EtVerif.TrGo05.go_compute_terminates_default
+#print axioms EtVerif.TrGo05.go_compute_terminates_with_t0
+#print axioms EtVerif.TrGo05.go_compute_terminates_alpha_one
+#print axioms EtVerif.TrGo05.go_compute_terminates_first
+#print axioms EtVerif.TrGo05.go_compute_converged_bound
+#print axioms EtVerif.TrGo05.go_compute_converged_bound_unique
+#print axioms EtVerif.TrGo05.go_compute_default_bound
+#print axioms EtVerif.TrGo05.go_flatTail_update_fold
+#print axioms EtVerif.TrGo05.go_flatTail_update_stats
+#print axioms EtVerif.TrGo05.go_flatTail_reached_iff
+#print axioms EtVerif.TrGo05.go_flatTail_update_ranking_top
